@@ -1,5 +1,6 @@
 import AggkitModel.Model.BridgeStore
 import AggkitModel.Properties.C01
+import AggkitModel.Generated.SyncFacts
 set_option linter.unusedSectionVars false
 /-
 C07 — block processing is all-or-nothing under faults; retry is clean; no later block is recorded
@@ -215,5 +216,27 @@ theorem C07_retry_clean_roots (H : HashAlg α) (hinj : H.Inj) (n : Nat) (ops1 op
     simp [absHistory, List.foldl_append, HiOp.abs]
   intro i hi
   exact C01_partition_irrelevant H hinj n _ _ wfa wfb (by rw [habs]) i (by rw [habs]; exact hi)
+
+/-- **what the fault model takes from the source** (regenerated from /repo on every run). The model says: a failing
+    storage statement makes `ProcessBlock` return the error, and the deferred function then rolls the transaction back
+    unless the commit has succeeded. In the source of the three stores and of the tree package this is: no `err != nil`
+    block inside the write path handles the error locally — the listed exceptions are the rollback's own error, row-set
+    `Close` warnings of read-only pagers, and the proof reader `getSiblings` (which converts a missing node into its own
+    error value) —, and the rollback flag is set before the first statement and cleared only after `Commit`. -/
+theorem C07_code_facts :
+    Gen.SyncFacts.errHandledLocally_bridgeProcessor =
+      ["GetBridgesPaged#5", "GetClaimsPaged#5", "GetLegacyTokenMigrations#4", "fetchTokenMappings#3", "rollbackTransaction#1"] ∧
+    Gen.SyncFacts.errHandledLocally_l1infoProcessor = ["GetLatestInfoUntilBlock#2", "ProcessBlock#2", "Reorg#2"] ∧
+    Gen.SyncFacts.errHandledLocally_l1infoVerifyBatches = [] ∧
+    Gen.SyncFacts.errHandledLocally_l1infoInitial = [] ∧
+    Gen.SyncFacts.errHandledLocally_gerProcessor = ["ProcessBlock#2"] ∧
+    Gen.SyncFacts.errHandledLocally_treeCore = ["getSiblings#1"] ∧
+    Gen.SyncFacts.errHandledLocally_treeAppendOnly = [] ∧
+    Gen.SyncFacts.errHandledLocally_treeUpdatable = ["UpsertLeaf#1"] ∧
+    Gen.SyncFacts.rollbackGuard_bridge = "shouldRollback" ∧ Gen.SyncFacts.rollbackGuard_l1info = "shouldRollback" ∧
+    Gen.SyncFacts.rollbackGuard_ger = "shouldRollback" ∧
+    Gen.SyncFacts.rollbackFlagFlow_bridge = ["shouldRollback := true", "Commit", "shouldRollback = false"] ∧
+    Gen.SyncFacts.rollbackFlagFlow_l1info = ["shouldRollback := true", "Commit", "shouldRollback = false"] ∧
+    Gen.SyncFacts.rollbackFlagFlow_ger = ["shouldRollback := true", "Commit", "shouldRollback = false"] := by decide
 
 end Aggkit.C07
